@@ -263,7 +263,18 @@ pub fn reopen_db(path: &Path, h: &History, k: u64) -> Result<DB, jammdb::Error> 
         .num_pages(np.max(4))
         .strict_mode(h.strict)
         .mmap_populate(h.populate)
+        .direct_writes(DIRECT_WRITES.with(|d| d.get()))
         .open(path)
+}
+
+thread_local! {
+    /// open every database of this thread with `direct_writes(true)` (O_DIRECT); a fifth open option that
+    /// no history carries, switched on around whole runs
+    static DIRECT_WRITES: std::cell::Cell<bool> = const { std::cell::Cell::new(false) };
+}
+
+pub fn set_direct_writes(on: bool) {
+    DIRECT_WRITES.with(|d| d.set(on));
 }
 
 pub fn open_db(path: &Path, h: &History) -> Result<DB, jammdb::Error> {
@@ -272,6 +283,7 @@ pub fn open_db(path: &Path, h: &History) -> Result<DB, jammdb::Error> {
         .num_pages(h.num_pages)
         .strict_mode(h.strict)
         .mmap_populate(h.populate)
+        .direct_writes(DIRECT_WRITES.with(|d| d.get()))
         .open(path)
 }
 
